@@ -337,6 +337,12 @@ def build_conf(spec):
         conf['sources']['s_' + gnames[0]]['supported_srs'] = [spec['grids'][gnames[0]]['srs'], spec['grids'][gnames[1]]['srs']]
         conf['caches']['c_multi'] = c
         conf['layers'].append({'name': 'l_multi', 'title': 'cache on two grids', 'sources': ['c_multi']})
+        if spec.get('stacked', True):
+            # the same cache is also the source of another cache (cache on cache): the loader builds the objects of c_multi once
+            # and hands them to both users; what the stacked cache needs must not change what the layer above enforces
+            conf['caches']['c_stack'] = {'grids': [gnames[1]], 'sources': ['c_multi'], 'format': c.get('format', 'image/png'),
+                                         'disable_storage': True}
+            conf['layers'].append({'name': 'l_stack', 'title': 'cache on the cache on two grids', 'sources': ['c_stack']})
     conf['services'] = {'tms': dict(spec['tms']), 'kml': dict(spec['kml']), 'wmts': dict(spec['wmts']),
                         'wms': {'srs': srs_all, 'max_output_pixels': spec['max_output_pixels'],
                                 'image_formats': ['image/png', 'image/jpeg'], 'md': {'title': 'c16'}}}
